@@ -78,7 +78,9 @@ LEVEL_NOTE = ("Trusted: numpy's own enforcement of ndarray.flags.writeable and n
               "array object a field was built from and everything reachable from the field or from that "
               "object afterwards. Out of scope and not generated: ndarray.setflags(write=True), .base of a "
               "view, writing through an alias of the source memory that existed before construction and was "
-              "not itself given to the constructor, cupy arrays (no GPU).")
+              "not itself given to the constructor (this includes the file behind an np.memmap source and the mask of a "
+              "MaskedArray), cupy arrays (no GPU). Whether a rejected call leaves its argument writable is not "
+              "prescribed; only snapshots are compared.")
 TECHNIQUE = "model-based history PBT (snapshot-bytes model, differential twin writes) + exhaustive single-write matrix"
 ASSUMPTIONS = [
     "a field may be built from an already registered array only if that array aliases an existing field or "
@@ -217,6 +219,16 @@ def _sig_pub(f):
         d = f.asnumpy()
         return tuple((k,) + _asig(d[k]) for k in f.domain.keys())
     return _asig(f.asnumpy())
+
+
+def _native(sig):
+    """the same values in native byte order (numpy unpickles a non-native array as a native one)"""
+    if sig and isinstance(sig[0], tuple):
+        return tuple((s[0],) + _native(s[1:]) for s in sig)
+    dt = np.dtype(sig[0])
+    if dt.isnative:
+        return tuple(sig)
+    return _asig(np.frombuffer(sig[2], dtype=dt).reshape(sig[1]).astype(dt.newbyteorder("=")))
 
 
 def _show(sig):
@@ -785,7 +797,10 @@ class History:
         else:
             g = self._tolerant([f], how, lambda: copy.copy(f))
         if g is not None:
-            self.add_field(g, "copy_" + how, expect=ent["snap"])
+            jj = self.add_field(g, "copy_" + how)
+            got = self.fields[jj]["snap"]
+            require(_native(got) == _native(ent["snap"]), "constructed_value_differs_from_input",
+                    f"copy_{how} of field #{j} ({ent['ctor']}): copy holds {_show(got)}, original {_show(ent['snap'])}")
 
     def op_unary(self, i, name):
         j, ent = self._field(i)
@@ -1490,9 +1505,11 @@ def _ctor_variants(tier):
     out = []
     dts = ["f8"] if tier == "quick" else ["f8", "c16", "i8", "f4"]
     for ctor in ARR_CTORS:
-        for sk in SRC_KINDS:
+        for sk in SRC_KINDS0:
             for dt in dts:
                 out.append((f"{ctor}<{sk}>{dt}", [["new", ctor, [sk, 0], dt, _MV]], "aa" if sk.startswith("anyarray") else "nd"))
+    for how in (COPY_KINDS if tier != "quick" else ["pickle", "deepcopy"]):
+        out.append((f"copy_{how}", [["new", "from_raw", ["anyarray", 0], "f8", _MV], ["copy", -1, how]], "aa"))
     for w in FULL_KINDS:
         out.append((w, [["full", w, 1.5]], None))
         out.append((w + "_complex", [["full", w, {"re": 0.5, "im": 0.25}]], None))
@@ -1533,8 +1550,77 @@ def _derived_paths(prefix, root_is_aa):
     return out
 
 
-def matrix_cases(tier, seed):
+_ND_DERIVE_0D = ["view", "reshape", "real", "wrap", "bytes_view", "frombuffer"]
+_AA_DERIVE_0D = ["val", "view", "reshape", "real", "copy", "rewrap"]
+
+
+def _source_cases(tier):
+    """every array constructor x every NEW source kind (ndarray subclasses, read-only, non-native, locked
+    wrappers) and, on the scalar domain, x every source kind as a 0-d array: all write kinds through every
+    object that was handed to NIFTy (the source object, for wrappers also the wrapped array) and through
+    their views"""
     cases = []
+    dts = ["f8"] if tier == "quick" else ["f8", "c16", "i8"]
+    todo = [("u", 3, ARR_CTORS, [k for k in SRC_KINDS_NEW if k != "matrix"]), ("2d", 2, ARR_CTORS, ["matrix"]),
+            ("s", 1, ARR_CTORS_S, [k for k in SRC_KINDS if k != "matrix"])]
+    if tier != "quick":
+        todo.append(("2d", 2, ARR_CTORS, [k for k in SRC_KINDS_NEW if k != "matrix"]))
+    ci = 0
+    for dom, n, ctors, kinds in todo:
+        for ctor in ctors:
+            for sk in kinds:
+                for dt in dts:
+                    ci += 1
+                    pre = [["new", ctor, [sk, 0], dt, _MV], ["op", -1, OP_KINDS[ci % len(OP_KINDS)]]]
+                    # registered objects: [wrapped array (only anyarray_locked / anyarray_subclass)], source
+                    objs = [(0, False), (1, True)] if sk in ("anyarray_locked", "anyarray_subclass") else \
+                        [(0, sk in AA_SRC)]
+                    for tgt, is_aa in objs:
+                        for wk in (AA_WRITES if is_aa else ND_WRITES):
+                            cases.append({"dom": dom, "n": n, "ops": pre + [["write", tgt, wk, 1, 0.75]]})
+                        dks = AA_DERIVE if is_aa else ND_DERIVE
+                        if dom == "s" and tier == "quick":      # most view kinds coincide for a 0-d array
+                            dks = _AA_DERIVE_0D if is_aa else _ND_DERIVE_0D
+                        for dk in dks:
+                            d_aa = (dk not in ("val", "asnumpy")) if is_aa else dk == "wrap"
+                            for wk in (_DERIVED_WRITES_AA if d_aa else _DERIVED_WRITES_ND):
+                                cases.append({"dom": dom, "n": n,
+                                              "ops": pre + [["derive", tgt, dk], ["write", -1, wk, 1, 0.75]]})
+    return cases
+
+
+def _reject_cases(tier):
+    """constructor x (rejected constructor call | failing field operation | failing handle operation) made with
+    the source object or a handle of the field x later write through the source / raw / val"""
+    cases = []
+    kinds = ["own", "anyarray", "readonly"] if tier == "quick" else SRC_KINDS
+    for dom, n in [("u", 3), ("s", 1)]:
+        for ctor in (ARR_CTORS if dom != "s" else ARR_CTORS_S if tier != "quick" else ["makeField", "Field.scalar"]):
+            for sk in kinds:
+                pre = [["new", ctor, [sk, 0], "f8", _MV], ["op", -1, "makeOp"],
+                       ["handle", -1, "raw", "a"], ["handle", -1, "val", "a"], ["handle", -1, "asnumpy", "a"],
+                       ["handle", -1, "val.val", "a"], ["handle", -1, "val_rw", "a"]]
+                # arrs: 0 = source, 1 = raw, 2 = val, 3 = asnumpy, 4 = val.val, 5 = val_rw
+                for how in REJECT_KINDS:
+                    for arg in range(6):
+                        for tgt in ((0, 1, 2) if tier != "quick" else (0, 1) if arg != 2 else (2,)):
+                            cases.append({"dom": dom, "n": n, "ops": pre + [
+                                ["reject", how, ["reuse" if arg == 0 else "handle", arg], "f8", _MV],
+                                ["write", tgt, "setitem", 1, 0.75]]})
+                if sk in ("own", "anyarray"):
+                    for how in FFAIL_KINDS:
+                        for tgt in (0, 1, 2):
+                            cases.append({"dom": dom, "n": n, "ops": pre + [["ffail", -1, how],
+                                                                           ["write", tgt, "iadd", 1, 0.75]]})
+                    for how in HFAIL_KINDS:
+                        for arg in range(6):
+                            cases.append({"dom": dom, "n": n, "ops": pre + [["hfail", arg, how],
+                                                                           ["write", arg, "setitem", 1, 0.75]]})
+    return cases
+
+
+def matrix_cases(tier, seed):
+    cases = _source_cases(tier) + _reject_cases(tier)
     doms = [("u", 3)] if tier == "quick" else [("u", 3), ("2d", 2), ("rg", 1)]
     for dom, n in doms:
         for ci, (name, cops, src) in enumerate(_ctor_variants(tier)):
@@ -1604,13 +1690,18 @@ KNOWN_PROBES = {"numpy_ufunc_at_ignores_readonly": probe_numpy_ufunc_at,
 
 
 SUBS = [
-    Sub(name="single_write_matrix", check=check, cases=matrix_cases, exhaustive=True, shards=6,
+    Sub(name="single_write_matrix", check=check, cases=matrix_cases, exhaustive=True, shards=8,
         rule="complete enumeration constructor variant x access path (source object, its views, 8 handle kinds "
-             "and 16 kinds of views/wrappers of each) x write kind, one derived operator per history; "
+             "and 16 kinds of views/wrappers of each) x write kind, one derived operator per history; plus array "
+             "constructor x source kind (ndarray subclasses memmap / MaskedArray / matrix / user subclass, read-only, "
+             "non-native byte order, locked AnyArray, and every kind as a 0-d array on the scalar domain) x every "
+             "object handed to NIFTy and its views x write kind; plus constructor x (13 rejected constructor calls "
+             "x 6 argument paths | 14 failing field operations | failing handle operations) x later write; "
              "non-trivial = the write is effective on a plain numpy twin and its target shares memory with a "
              "live field (np.shares_memory), i.e. it has to be refused"),
     Sub(name="field_histories", check=check, strategy=histories(False), quick=2400, thorough=60000, shards=6,
-        rule="random histories over Field constructors; non-trivial = >=1 write attempt that is effective on a "
+        rule="random histories over Field constructors (all source kinds, scalar domain, pickle/deepcopy/copy), "
+             "rejected constructor calls and failing operations interleaved; non-trivial = >=1 write attempt that is effective on a "
              "plain numpy twin through a source/handle that shares memory with a live field"),
     Sub(name="multifield_histories", check=check, strategy=histories(True), quick=1600, thorough=40000, shards=4,
         rule="random histories with MultiField constructors (from_raw, makeField(dict), from_dict, full, "
